@@ -14,6 +14,11 @@ Hand-written on top of `AdeptModel/Generated/Engines.lean` (the engine policy st
   side is reported as aliased, in-place element-by-element traversal otherwise) for right-hand sides that
   read the target's own Storage object (`AExpr`, `SM.assignExpr`); the rank-1 counterpart of `Array.h` for
   `diag_vector` views (`VExpr`, `Vec.assignExpr`; correspondence only).
+  the eight compound operators `operator+= -= *= /=` (expression and scalar right-hand sides:
+  `*this = noalias(*this) OP rhs`; `AExpr.noalias`, `AExpr.bin`, `AExpr.binc`, `AExpr.dense`, `SM.compound`,
+  `SM.compoundScalar`), and for ACTIVE matrices the statements recorded by `operator=(const Active<PType>&)`
+  (`SM.assignActiveScalar`), `assign_inactive_scalar<true>` (`SM.recPassiveScalar`, `Stack::push_lhs_range`) and the
+  active `assign_expression_` (`SM.recExpr`, `AExpr.grads` = `calc_gradient` / `Engine::push_rhs`).
 
 Raw storage is a function `Int → Int` (element k of the `Storage` object) wrapped in a one-field structure (a bare
 function type makes the compiled driver re-run a whole statement for every element read); `base` is
@@ -118,13 +123,31 @@ def rowFrom (m : SM) (d : Raw) (l : Loc) : Nat → List Int
 
 end SM
 
+/-- the element-wise operations of the compound assignment operators (`Add`, `Subtract`, `Multiply`, `Divide` of
+    include/adept/BinaryOperation.h) -/
+inductive BinOp where
+  | add | sub | mul | div
+deriving Repr, DecidableEq
+
+/-- values are integers: `div` is the C++ quotient wherever that quotient is an integer (the correspondence runs
+    compare values of `/=` only there); every theorem about the compound operators holds for an arbitrary
+    operation, so nothing depends on this choice -/
+def BinOp.apply : BinOp → Int → Int → Int
+  | .add, a, b => a + b
+  | .sub, a, b => a - b
+  | .mul, a, b => a * b
+  | .div, a, b => a / b
+
 /-- right-hand sides used by the correspondence runs: special matrices (with their storage), a dense
-    `Matrix` given by its elements, multiplication by a scalar, element-wise sum -/
+    `Matrix` given by its elements, multiplication by a scalar, element-wise sum, element-wise binary operation
+    of two arrays (`bin`) and of an array and a scalar (`binc`) -/
 inductive RExpr where
   | sm (m : SM) (d : Raw)
   | dense (f : Int → Int → Int)
   | scale (a : RExpr) (c : Int)
   | add (a b : RExpr)
+  | bin (o : BinOp) (a b : RExpr)
+  | binc (o : BinOp) (a : RExpr) (c : Int)
 
 /-- `rhs.set_location((i,j0), ind)` followed by `n` calls of `rhs.next_value(ind)`.  Every leaf keeps its own
     slots of `ind`, so the lock-step traversal of the tree is the element-wise combination of the leaves' rows. -/
@@ -133,6 +156,8 @@ def RExpr.row : RExpr → Int → Int → Nat → List Int
   | .dense f, i, j0, n => (List.range n).map (fun (t : Nat) => f i (j0 + (t : Int)))
   | .scale a c, i, j0, n => (a.row i j0 n).map (· * c)
   | .add a b, i, j0, n => List.zipWith (· + ·) (a.row i j0 n) (b.row i j0 n)
+  | .bin o a b, i, j0, n => List.zipWith o.apply (a.row i j0 n) (b.row i j0 n)
+  | .binc o a c, i, j0, n => (a.row i j0 n).map (fun x => o.apply x c)
 
 /-- `Matrix D(rhs)` / `D = rhs` for an n x n right-hand side: `Array::assign_expression_`, one
     `set_location((i,0))` per row and `n` `next_value`s; result row by row -/
@@ -189,6 +214,15 @@ inductive AExpr where
   | sm (m : SM) (l : SM.Loc)
   | scale (a : AExpr) (c : Int)
   | add (a b : AExpr)
+  /-- a dense `Matrix` operand held in ANOTHER Storage object (never written by the statement), element (i,j) = `f i j`;
+      its cursor is kept as (i,j) -/
+  | dense (f : Int → Int → Int) (i j : Int)
+  /-- `noalias(a)` (include/adept/noalias.h): `is_aliased` answers false, everything else is forwarded -/
+  | noalias (a : AExpr)
+  /-- `BinaryOperation<…,Op,…>` of two arrays -/
+  | bin (o : BinOp) (a b : AExpr)
+  /-- `BinaryOpWithScalar<…,Op,…>`: array `Op` scalar -/
+  | binc (o : BinOp) (a : AExpr) (c : Int)
 
 namespace AExpr
 
@@ -201,30 +235,72 @@ def isAliased : AExpr → Int → Int → Bool
   | .sm m _, mem1, mem2 => m.isAliased mem1 mem2
   | .scale a _, mem1, mem2 => a.isAliased mem1 mem2
   | .add a b, mem1, mem2 => a.isAliased mem1 mem2 || b.isAliased mem1 mem2
+  | .dense _ _ _, _, _ => false     -- `Array::is_aliased_` of an array in another allocation
+  | .noalias _, _, _ => false       -- `NoAlias::is_aliased_` returns false without asking its argument
+  | .bin _ a b, mem1, mem2 => a.isAliased mem1 mem2 || b.isAliased mem1 mem2
+  | .binc _ a _, mem1, mem2 => a.isAliased mem1 mem2
 
 /-- `rhs.set_location(i, ind)` -/
 def setLocation : AExpr → Int → Int → AExpr
   | .sm m _, i, j => .sm m (m.setLocation i j)
   | .scale a c, i, j => .scale (a.setLocation i j) c
   | .add a b, i, j => .add (a.setLocation i j) (b.setLocation i j)
+  | .dense f _ _, i, j => .dense f i j
+  | .noalias a, i, j => .noalias (a.setLocation i j)
+  | .bin o a b, i, j => .bin o (a.setLocation i j) (b.setLocation i j)
+  | .binc o a c, i, j => .binc o (a.setLocation i j) c
 
 /-- the value part of `rhs.next_value(ind)` (`value_at_location_`), read from the storage as it is NOW -/
 def value : AExpr → Raw → Int
   | .sm m l, d => m.valueAt d l
   | .scale a c, d => a.value d * c
   | .add a b, d => a.value d + b.value d
+  | .dense f i j, _ => f i j
+  | .noalias a, d => a.value d
+  | .bin o a b, d => o.apply (a.value d) (b.value d)
+  | .binc o a c, d => o.apply (a.value d) c
 
 /-- the cursor part of `rhs.next_value(ind)` (`advance_location_`) -/
 def advance : AExpr → AExpr
   | .sm m l => .sm m (m.advance l)
   | .scale a c => .scale a.advance c
   | .add a b => .add a.advance b.advance
+  | .dense f i j => .dense f i (j + 1)
+  | .noalias a => .noalias a.advance
+  | .bin o a b => .bin o a.advance b.advance
+  | .binc o a c => .binc o a.advance c
 
 /-- the same expression evaluated over a fixed snapshot `d` of the storage -/
 def bind : AExpr → Raw → RExpr
   | .sm m _, d => .sm m d
   | .scale a c, d => .scale (a.bind d) c
   | .add a b, d => .add (a.bind d) (b.bind d)
+  | .dense f _ _, _ => .dense f
+  | .noalias a, d => a.bind d
+  | .bin o a b, d => .bin o (a.bind d) (b.bind d)
+  | .binc o a c, d => .binc o (a.bind d) c
+
+/-- the operations `rhs.next_value_and_gradient(stack, ind)` pushes at the current location when every special-matrix
+    leaf is ACTIVE: `calc_gradient(stack, loc, multiplier)` — a leaf pushes `(multiplier, gradient_index() + loc)`
+    exactly where `value_at_location` reads a stored element (`Engine::push_rhs` makes the same test), a sum
+    forwards the multiplier to the left and then to the right operand, a product with a scalar multiplies it.
+    Gradient indices are written as addresses: element k of a Storage object has gradient index
+    `(gradient index of element 0) + k`, and the model identifies the two. -/
+def grads : AExpr → Int → List (Int × Int)
+  | .sm m l, mult =>
+    match m.e.value_at_location l.l0 l.l1 l.l2 with
+    | some k => [(mult, m.base + k)]
+    | none => []
+  | .scale a c, mult => a.grads (mult * c)
+  | .add a b, mult => a.grads mult ++ b.grads mult
+  | .dense _ _ _, _ => []
+  | .noalias a, mult => a.grads mult
+  | .bin .add a b, mult => a.grads mult ++ b.grads mult
+  | .bin .sub a b, mult => a.grads mult ++ b.grads (-mult)
+  | .bin _ _ _, _ => []          -- products and quotients of active arrays are not used in the correspondence runs
+  | .binc .mul a c, mult => a.grads (mult * c)
+  | .binc .div _ _, _ => []      -- not used
+  | .binc _ a _, mult => a.grads mult
 
 end AExpr
 
@@ -263,6 +339,75 @@ def assignExpr (m : SM) (rhs : AExpr) (d : Raw) : Raw :=
     m.assign (.sm c dc) d
   else
     m.assignInPlace rhs d
+
+/-- the compound operators with an expression on the right: `operator+=`, `-=`, `*=`, `/=`
+    (`return *this = (noalias(*this) OP rhs);`) -/
+def compound (m : SM) (o : BinOp) (rhs : AExpr) (d : Raw) : Raw :=
+  m.assignExpr (.bin o (.noalias (.leaf m)) rhs) d
+
+/-- the compound operators with a passive scalar on the right (`return *this = (noalias(*this) OP rhs);`) -/
+def compoundScalar (m : SM) (o : BinOp) (c : Int) (d : Raw) : Raw :=
+  m.assignExpr (.binc o (.noalias (.leaf m)) c) d
+
+/-! #### active special matrices: the statements recorded by an assignment -/
+
+/-- one recorded statement: gradient index of the left-hand side and the operations (multiplier, gradient index);
+    gradient indices are written as addresses (see `AExpr.grads`) -/
+structure Stmt where
+  lhs : Int
+  ops : List (Int × Int)
+deriving Repr
+
+/-- inner loop of `operator=(const Active<PType>&)`: `data_[index] = val; push_rhs(1.0, rhs.gradient_index());
+    push_lhs(gradient_index()+index); index += index_stride` -/
+def activeScalarRow (m : SM) (val gx : Int) : Nat → Int → Int → Raw × List Stmt → Raw × List Stmt
+  | 0, _, _, s => s
+  | n + 1, idx, stride, (d, tape) =>
+    m.activeScalarRow val gx n (idx + stride) stride (d.set (m.base + idx) val, tape ++ [⟨m.base + idx, [(1, gx)]⟩])
+
+/-- `SpecialMatrix<…,true>::operator=(const Active<PType>&)` while recording: row loop over `get_row_range` -/
+def activeScalarRowOf (m : SM) (val gx : Int) (s : Raw × List Stmt) (i : Nat) : Raw × List Stmt :=
+  let i : Int := i
+  let js := m.e.get_row_range_j_start i m.dim m.offset
+  let je := m.e.get_row_range_j_end_plus_1 i m.dim m.offset
+  m.activeScalarRow val gx (je - js).toNat (m.e.get_row_range_index_start i m.dim m.offset)
+    (m.e.get_row_range_index_stride i m.dim m.offset) s
+
+def assignActiveScalar (m : SM) (val gx : Int) (d : Raw) : Raw × List Stmt :=
+  (List.range m.dim.toNat).foldl (m.activeScalarRowOf val gx) (d, [])
+
+/-- `Stack::push_lhs_range(first, n, stride)`: n statements without operations -/
+def lhsRange : Int → Nat → Int → List Stmt
+  | _, 0, _ => []
+  | first, n + 1, stride => ⟨first, []⟩ :: lhsRange (first + stride) n stride
+
+/-- the statements of `assign_inactive_scalar<true>` (a passive scalar assigned to an active matrix): one
+    `push_lhs_range(gradient_index()+index, j_end_plus_1-j_start, index_stride)` per row; the values are stored by the
+    same loop as for a passive matrix (`SM.assign` with a constant right-hand side) -/
+def recPassiveScalar (m : SM) : List Stmt :=
+  (List.range m.dim.toNat).flatMap (fun (i : Nat) =>
+    let i : Int := i
+    let js := m.e.get_row_range_j_start i m.dim m.offset
+    let je := m.e.get_row_range_j_end_plus_1 i m.dim m.offset
+    lhsRange (m.base + m.e.get_row_range_index_start i m.dim m.offset) (je - js).toNat
+      (m.e.get_row_range_index_stride i m.dim m.offset))
+
+/-- inner loop of the active `assign_expression_`: `data_[index] = rhs.next_value_and_gradient(stack, ind);
+    push_lhs(gradient_index()+index)` — the recorded part (the stored values are those of `assignRowIP`) -/
+def recRow (m : SM) : Nat → AExpr → Int → Int → List Stmt
+  | 0, _, _, _ => []
+  | n + 1, rhs, idx, stride => ⟨m.base + idx, rhs.grads 1⟩ :: m.recRow n rhs.advance (idx + stride) stride
+
+def recRowOf (m : SM) (rhs : AExpr) (i : Nat) : List Stmt :=
+  let i : Int := i
+  let js := m.e.get_row_range_j_start i m.dim m.offset
+  let je := m.e.get_row_range_j_end_plus_1 i m.dim m.offset
+  m.recRow (je - js).toNat (rhs.setLocation i js) (m.e.get_row_range_index_start i m.dim m.offset)
+    (m.e.get_row_range_index_stride i m.dim m.offset)
+
+/-- the statements recorded by `A = rhs` (`assign_expression_<true,true>`, right-hand side not aliased) -/
+def recExpr (m : SM) (rhs : AExpr) : List Stmt :=
+  (List.range m.dim.toNat).flatMap (m.recRowOf rhs)
 
 end SM
 
